@@ -15,15 +15,13 @@ EXTENDS Cmap, Json, IOUtils, Sequences, SequencesExt
 
 Rec == ndJsonDeserialize(IOEnv.TRACE)
 
-VARIABLES l, tab, enc, first, wf
-tvars == <<l, tab, enc, first, wf>>
+VARIABLES l, tab, enc, first, wf, srt
+tvars == <<l, tab, enc, first, wf, srt>>
 
 NoTab == [fmt |-> 0, gia |-> <<>>]
 
 WellFormed(t) ==
-  CASE t.fmt = 4  -> Sorted4(t.segs)
-    [] t.fmt = 12 -> Sorted12(t.groups)
-    [] t.fmt = 2  -> Len(t.keys) = 256 /\ \A b \in 1 .. 256 : t.keys[b] % 8 = 0 /\ t.keys[b] \div 8 < Len(t.subs)
+  CASE t.fmt = 2  -> Len(t.keys) = 256 /\ \A b \in 1 .. 256 : t.keys[b] % 8 = 0 /\ t.keys[b] \div 8 < Len(t.subs)
     [] OTHER -> TRUE
 
 \* at most n elements of a set of tuples, the smallest by first component
@@ -35,13 +33,17 @@ SelectBad(e) ==
   ELSE {<<k, IF k = 0 THEN "None" ELSE EncodingOf(e.a.recs[k]), e.o.sel, e.o.enc>>}
 
 \* <<code, conformant answers, answer, rule, api>>
+\* srt: the segments / groups of the loaded table are sorted and disjoint; otherwise the
+\* Dev_UnsortedAny readings apply
+Acc(c) == IF srt THEN AcceptSub(tab, c) ELSE AcceptSubU(tab, c)
+Br(c)  == IF srt THEN Branch(tab, c) ELSE BranchU(tab, c)
 MapBad(e) ==
   LET cs == e.a.codes IN
-  {<<cs[k], AcceptSub(tab, cs[k]), e.o.sub[k], Branch(tab, cs[k]), "map_glyph">> :
-      k \in {j \in 1 .. Len(cs) : ~Ok(AcceptSub(tab, cs[j]), e.o.sub[j])}}
+  {<<cs[k], Acc(cs[k]), e.o.sub[k], Br(cs[k]), "map_glyph">> :
+      k \in {j \in 1 .. Len(cs) : ~Ok(Acc(cs[j]), e.o.sub[j])}}
   \cup
-  {<<cs[k], AcceptSub(tab, cs[k]), e.o.own[k], Branch(tab, cs[k]), "owned_map_glyph">> :
-      k \in {j \in 1 .. Len(e.o.own) : ~Ok(AcceptSub(tab, cs[j]), e.o.own[j])}}
+  {<<cs[k], Acc(cs[k]), e.o.own[k], Br(cs[k]), "owned_map_glyph">> :
+      k \in {j \in 1 .. Len(e.o.own) : ~Ok(Acc(cs[j]), e.o.own[j])}}
 
 CharBad(e) ==
   LET cs == e.a.chars IN
@@ -69,6 +71,27 @@ EnumBad(e) ==
                 {<<g[2], {g[1]}, -1, "enumerate:map", "mappings:pair-not-listed">> : g \in {x \in G : <<x[2], x[1]>> \notin P}}
                 \cup {<<-1, {g}, -1, "enumerate:map", "mappings:glyph-missing">> : g \in ({p[2] : p \in P} \ {x[1] : x \in G})})
 
+\* Enumeration of a table whose segments / groups are unsorted or overlap.  e.o.look are single
+\* lookups <<code, glyph>> made on the same subtable.  Every listed pair is a code of the table
+\* with a glyph that a segment / group holding the code assigns (Dev_EnumOverlapDup: a code held
+\* by several may be listed once per holder); every pair a single lookup returns with a non-zero
+\* glyph is listed; a code with one holder is listed with one glyph.
+EnumBadU(e) ==
+  LET P  == ToSet(e.o.pairs)
+      G  == ToSet(e.o.map)
+      L  == ToSet(e.o.look)
+      Cv == Covered(tab)
+  IN IF \E c \in Cv : BAD \in HolderGlyphs(tab, c) THEN {}
+     ELSE IF ~e.o.ok THEN {<<-1, {0}, ERR, "enumerate:failed", e.o.note>>}
+     ELSE {<<p[1], HolderGlyphs(tab, p[1]), p[2], BranchU(tab, p[1]), "mappings_fn:listed">> :
+              p \in {q \in P : q[1] \notin Cv \/ q[2] \notin HolderGlyphs(tab, q[1])}}
+          \cup {<<x[1], {x[2]}, 0, BranchU(tab, x[1]), "mappings_fn:omitted">> : x \in {y \in L : y[2] > 0 /\ y \notin P}}
+          \cup {<<p[1], HolderGlyphs(tab, p[1]), p[2], BranchU(tab, p[1]), "mappings_fn:duplicate">> :
+                   p \in {q \in P : HolderCount(tab, q[1]) <= 1 /\ \E r \in P : r[1] = q[1] /\ r[2] # q[2]}}
+          \cup (IF ~e.o.mok THEN {<<-1, {0}, ERR, "enumerate:failed", "mappings:" \o e.o.mnote>>} ELSE
+                {<<g[2], {g[1]}, -1, "enumerate:map", "mappings:pair-not-listed">> : g \in {x \in G : <<x[2], x[1]>> \notin P}}
+                \cup {<<-1, {g}, -1, "enumerate:map", "mappings:glyph-missing">> : g \in ({p[2] : p \in P} \ {x[1] : x \in G})})
+
 ConvBad(e) ==
   LET E == ToSet(e.o.enc)  D == ToSet(e.o.dec) IN
   IF e.a.name = "MacRoman"
@@ -82,7 +105,7 @@ Report(e, bad) ==
   ELSE PrintT(<<"MISMATCH", ToJson([i |-> e.i, case |-> e.case, ev |-> e.ev, n |-> Cardinality(bad),
                                     bad |-> SetToSeq(Few(bad, 8))])>>)
 
-TInit == l = 1 /\ tab = NoTab /\ enc = "Unicode" /\ first = 32 /\ wf = TRUE
+TInit == l = 1 /\ tab = NoTab /\ enc = "Unicode" /\ first = 32 /\ wf = TRUE /\ srt = TRUE
 
 TNext ==
   /\ l <= Len(Rec)
@@ -91,12 +114,13 @@ TNext ==
      IF e.ev = "Load"
      THEN /\ tab' = e.a.t /\ enc' = e.a.enc /\ first' = e.a.first
           /\ wf' = WellFormed(e.a.t)
+          /\ srt' = TabSorted(e.a.t)
           /\ IF WellFormed(e.a.t) THEN TRUE ELSE PrintT(<<"MALFORMED", e.case>>)
-     ELSE /\ UNCHANGED <<tab, enc, first, wf>>
+     ELSE /\ UNCHANGED <<tab, enc, first, wf, srt>>
           /\ CASE e.ev = "Select"    -> Report(e, SelectBad(e))
                [] e.ev = "MapBatch"  -> IF wf THEN Report(e, MapBad(e)) ELSE TRUE
-               [] e.ev = "CharBatch" -> IF wf THEN Report(e, CharBad(e)) ELSE TRUE
-               [] e.ev = "Enumerate" -> IF wf THEN Report(e, EnumBad(e)) ELSE TRUE
+               [] e.ev = "CharBatch" -> IF wf /\ srt THEN Report(e, CharBad(e)) ELSE TRUE
+               [] e.ev = "Enumerate" -> IF ~wf THEN TRUE ELSE IF srt THEN Report(e, EnumBad(e)) ELSE Report(e, EnumBadU(e))
                [] e.ev = "ConvTable" ->
                     LET b == ConvBad(e) IN
                     IF ConvOK(b) THEN TRUE
